@@ -139,6 +139,7 @@ def run(rep, wd, tier, seed):
         jobs.append((seed, ('pkgshuf', 0), codec, 'derived', 0, 60))
         jobs.append((seed, ('pkgshuf', 1), codec, 'derived', 60, 120))
         jobs.append((seed, ('pkgshuf', 2), codec, 'derived', 120, 180))
+        jobs.append((seed, ('pkgstr',), codec, 'derived', 300, 380))
         for cfgspec in (('pkg',), gen):
             jobs.append((seed, cfgspec, codec, 'over', 0, 0))
             jobs.append((seed, cfgspec, codec, 'padding', 0, 0))
